@@ -66,11 +66,22 @@ pub struct Embedding {
     /// only below it (all keys of a group under one sub-trie)
     pub clustered: bool,
     pub filler_seed: u64,
+    /// 0 = pseudo-random shared filler, 1 = all-zero filler, 2 = all-one filler (keys that sit
+    /// exactly on sub-trie boundaries)
+    #[serde(default)]
+    pub filler_mode: u8,
 }
 
 impl Embedding {
-    pub fn parse(name: &str, nbits: usize, seed: u64) -> Embedding {
-        // top | tail | deep(P) | spread(S) | scatter
+    pub fn parse(full_name: &str, nbits: usize, seed: u64) -> Embedding {
+        // top | tail | deep(P) | spread(S) | scatter, optionally followed by ":z" / ":o"
+        let (name, filler_mode) = if let Some(n) = full_name.strip_suffix(":z") {
+            (n, 1u8)
+        } else if let Some(n) = full_name.strip_suffix(":o") {
+            (n, 2u8)
+        } else {
+            (full_name, 0u8)
+        };
         let (prefix, stride, clustered) = if name == "top" {
             (0, 1, true)
         } else if name == "tail" {
@@ -88,12 +99,13 @@ impl Embedding {
             panic!("unknown embedding {name}");
         };
         Embedding {
-            name: name.to_string(),
+            name: full_name.to_string(),
             nbits,
             prefix,
             stride,
             clustered,
             filler_seed: seed,
+            filler_mode,
         }
     }
 
@@ -104,7 +116,11 @@ impl Embedding {
     /// The concrete key of member `j` of model key `i`.
     pub fn key(&self, i: usize, j: usize) -> Key {
         let mut shared = [0u8; 32];
-        Rng::new(self.filler_seed).fill(&mut shared);
+        match self.filler_mode {
+            1 => {}
+            2 => shared = [0xffu8; 32],
+            _ => Rng::new(self.filler_seed).fill(&mut shared),
+        }
         let mut member = [0u8; 32];
         Rng::new(self.filler_seed ^ ((j as u64 + 1).wrapping_mul(0xA24B_AED4_963E_E407))).fill(&mut member);
         let pos = self.model_positions();
@@ -198,6 +214,18 @@ impl ValueTable {
             .get(model_value)
             .map(|s| s.as_str())
             .unwrap_or("tiny");
+        // "a|b": a mixed group - one member in eight (chosen by the key) gets class a, the rest b
+        let class = match class.split_once('|') {
+            Some((a, b)) => {
+                let sel = key.iter().fold(0u32, |h, x| h.wrapping_mul(31).wrapping_add(*x as u32));
+                if sel % 8 == 0 {
+                    a
+                } else {
+                    b
+                }
+            }
+            None => class,
+        };
         let id = model_value
             .bytes()
             .fold(0xcbf29ce484222325u64, |h, b| (h ^ b as u64).wrapping_mul(0x100000001b3));
